@@ -3,6 +3,7 @@
 open Model
 type string = String.t   (* Model exports the Coq string type under this name; the driver only uses OCaml strings *)
 
+exception Timeout
 let rec nat_of_int n = if n <= 0 then O else S (nat_of_int (n - 1))
 let rec int_of_nat = function O -> 0 | S n -> 1 + int_of_nat n
 
@@ -355,6 +356,30 @@ let run_n () =
   let cfg = { full_merge = fm; discard_fields = default_discard; detect_dup = dd } in
   print_endline ("norm=" ^ show_res show_json (normalize sv cfg fuel s))
 
+(* stream NS: a document of the propositional-scalar fragment and instances: the membership test fragb, the evaluator semb
+   per instance, and the model's normal form evaluated keyword set by keyword set on the same instances
+   (C06_fragment_exec, run) *)
+let run_ns () =
+  let depth = next_nat () in
+  let fuel = next_nat () in
+  let s = read_json () in
+  let k = next () in
+  let xs = List.init k (fun _ -> read_json ()) in
+  let fb = fragb depth s in
+  let bits = String.concat "" (List.map (fun x -> if semb depth x s then "1" else "0") xs) in
+  let cfg = { full_merge = true; discard_fields = default_discard; detect_dup = false } in
+  let nf = try (match normalize true cfg fuel s with
+    | Ok n ->
+      (match any_of n with
+       | Ok alts ->
+         "ok:" ^ String.concat "" (List.map (fun x ->
+           if List.exists (fun a -> match a with
+                                    | JObj d -> List.for_all (fun (k, v) -> kvalidb k v x) d
+                                    | _ -> false) alts then "1" else "0") xs)
+       | r -> show_res (fun _ -> "") r)
+    | r -> show_res (fun _ -> "") r) with Timeout -> "timeout" | Stack_overflow -> "timeout" | Out_of_memory -> "timeout" in
+  print_endline (Printf.sprintf "frag=%d|sem=%s|nf=%s" (if fb then 1 else 0) bits nf)
+
 (* stream J: JSON schema -> graph, entries, samples *)
 let cjson j = String.concat "," (String.split_on_char ' ' (show_json j))
 let show_jpay st n =
@@ -545,7 +570,6 @@ let run_o with_graph =
 
 (* a case that keeps the model busy for more than [limit] seconds is given up (reported as error=timeout):
    the harness counts it and draws no conclusion from it *)
-exception Timeout
 let limit = try int_of_string (Sys.getenv "FENCES_DRIVER_LIMIT") with _ -> 30
 
 let () =
@@ -570,6 +594,7 @@ let () =
            | "WG" -> run_wg ()
            | "X" -> run_x ()
            | "J" -> run_j ()
+           | "NS" -> run_ns ()
            | "F" -> run_f ()
            | "O" -> run_o false
            | "OG" -> run_o true
